@@ -85,8 +85,14 @@ func sigList(vs []*Violation) string {
 	return s
 }
 
-// BFS explores sc to its depth bound (or until the frontier empties).
-func (w *Worker) BFS(sc *Scenario) {
+// BFS explores sc to its depth bound (or until the frontier empties); the
+// depth-1 operations are partitioned over the worker shards.
+func (w *Worker) BFS(sc *Scenario) { w.bfs(sc, true) }
+
+// BFSAll explores the whole scenario in this worker (callers shard by scenario).
+func (w *Worker) BFSAll(sc *Scenario) { w.bfs(sc, false) }
+
+func (w *Worker) bfs(sc *Scenario, shardFirst bool) {
 	type node struct{ path []int }
 	seen := map[[16]byte]struct{}{}
 	hkey := func(s string) [16]byte {
@@ -99,7 +105,7 @@ func (w *Worker) BFS(sc *Scenario) {
 	rk := root.Key()
 	root.Close()
 	seen[hkey(rk)] = struct{}{}
-	if w.Shard == 0 {
+	if w.Shard == 0 || !shardFirst {
 		w.AddStates(1)
 	}
 	frontier := []node{{nil}}
@@ -108,7 +114,7 @@ func (w *Worker) BFS(sc *Scenario) {
 		var next []node
 		for _, nd := range frontier {
 			for op := range sc.Ops {
-				if depth == 1 && !w.Mine(op) {
+				if shardFirst && depth == 1 && !w.Mine(op) {
 					continue
 				}
 				if sc.Enabled != nil && !sc.Enabled(nd.path, op) {
